@@ -896,8 +896,8 @@ def consumer(tree, node, _depth=0):
                         return r
                     worst = r
                 return worst
-            if p.get("els") is not None:
-                return ("match", p)
+            if pat.get("k") == "wild":
+                return ("dropped", p)
             return ("match", p)
         if k == "closure":
             return ("returned", p)
@@ -1070,6 +1070,13 @@ def mir_arith_asserts(body):
             t = blk["t"]
             if t["k"] == "assert" and not cb.is_cleanup(bi):
                 msg = str(t.get("msg"))
+                if msg in ("div0", "rem0"):
+                    # `x / 2`: the zero test compares two constants (mir-opt-level=0 keeps the assertion)
+                    cp = op_place(t["c"])
+                    const_cmp = any(s["k"] == "assign" and cp is not None and s["p"]["l"] == cp["l"] and s["r"].get("k") == "bin"
+                                    and op_const(s["r"]["a"]) is not None and op_const(s["r"]["b"]) is not None for s in blk["s"])
+                    if const_cmp:
+                        continue
                 if msg.startswith("overflow:") or msg in ("div0", "rem0"):
                     out.append((cb, bi, t))
     return out
@@ -1131,8 +1138,9 @@ class Intervals:
     the cell key). A missing key means "unknown": reads give the full range of the place's type. Calls return the full
     range of their type (value-preserving integer `From` impls return their argument's interval) and kill every
     memory cell and every local whose address was taken. Branches on a comparison refine both operands (and the
-    cell an operand was loaded from). Loops: an upper bound that grows by d on a back edge is widened once to
-    old + d * ITER_BOUND (loops are assumed to run fewer than 2^56 times), the second time the key is dropped.
+    cell an operand was loaded from). Loops: after three plain joins on a back edge, a bound that still grows by d per
+    pass is extrapolated to old + d * ITER_BOUND (loops are assumed to run fewer than 2^56 times) and further growth of
+    at most d per pass is absorbed; a bound that grows faster makes the place unknown.
     `results[block]` says for every arithmetic assertion whether the intervals prove it."""
 
     def __init__(self, body):
@@ -1232,7 +1240,7 @@ class Intervals:
                 pty = self._pty(p)
                 if pty.startswith("&") or pty.startswith("*"):
                     return ("ptr", f"(*{key})"), None
-                return self._read(st, r["o"]), (key if p.get("p") else None)
+                return self._read(st, r["o"]), key
             return self._read(st, r["o"]), None
         if k == "ref":
             return ("ptr", self._pkey(st, r["p"])), None
@@ -1427,6 +1435,7 @@ class Intervals:
         inn = {0: {}}
         visits = defaultdict(int)
         widened = defaultdict(int)
+        frozen = {}
         order = {bb: i for i, bb in enumerate(b.rpo())}
         work = deque([0])
         while work:
@@ -1456,12 +1465,22 @@ class Intervals:
                     elif is_iv(a) and is_iv(c):
                         j = (min(a[0], c[0]), max(a[1], c[1]))
                         if j != a and back:
+                            # three plain joins, then extrapolate the last per-iteration growth d over ITER_BOUND
+                            # iterations and accept further growth of at most d per pass (iteration-bound assumption);
+                            # anything growing faster becomes unknown
                             w = widened[(succ, key)]
                             widened[(succ, key)] += 1
-                            if w > 0:
-                                continue
-                            j = (a[0] if j[0] == a[0] else a[0] - (a[0] - j[0]) * ITER_BOUND,
-                                 a[1] if j[1] == a[1] else a[1] + (j[1] - a[1]) * ITER_BOUND)
+                            dlo, dhi = a[0] - j[0], j[1] - a[1]
+                            if w == 3:
+                                frozen[(succ, key)] = (dlo, dhi)
+                                j = (a[0] - dlo * ITER_BOUND, a[1] + dhi * ITER_BOUND)
+                            elif w > 3:
+                                fz = frozen.get((succ, key))
+                                if fz is None or dlo > fz[0] or dhi > fz[1]:
+                                    frozen.pop((succ, key), None)
+                                    widened[(succ, key)] = 1000
+                                    continue
+                                j = a
                         new[key] = j
                 if new != old:
                     inn[succ] = new
